@@ -6,7 +6,7 @@ seed="$1"; prop="$2"; tier="${3:-quick}"
 patch="/verif/seeded/$seed/patch.diff"
 if ! git -C /repo diff --quiet; then echo "try_seed: /repo has uncommitted changes" >&2; exit 2; fi
 if ! git -C /repo apply --check "$patch" 2>/dev/null; then
-  if git -C /repo apply --3way --check "$patch" 2>/dev/null; then mode="--3way"; else echo "try_seed: $seed does not apply"; exit 3; fi
+  echo "try_seed: $seed does not apply to the current /repo (rebase the patch)"; exit 3
 else mode=""; fi
 git -C /repo apply $mode "$patch" || exit 3
 start=$(date +%s)
